@@ -500,7 +500,7 @@ impl Prop for C16 {
             level: "model_checking",
             rule: "(A) library: for every log of N <= 6 (thorough 8) messages with every match pattern (2^N) x stream/query x window end 0..N+1 x max_chunk_size {1,2,3,inf} x every composition of N into arrival batches (x one window extension after every tick for queries) the real process_stream_new_msgs is called the way the server loop calls it; after every tick filtered_msgs must be strictly increasing and equal the matching positions below the progress marker (queries: the first 'window end' of them, marker never beyond an uncollected match), and complete after the final batch plus idle ticks. (B) server, through the cfg(adlt_verif) driver on the real handlers: 7 filter sets (incl. one with two event filters) x 5 windows x stream/query x binary/text x every composition of the 6-message log into arrival ticks; one window change after every tick x 3 new windows; search paging (7 stream filters x 7 search filters x page sizes {1,2,N} x start 0..2, following next_search_idx); index and time lookups for every message, sorted and unsorted. Oracle: frames for the announced id are exactly positions [start,end) of the filtered log with the file's index/times/ids/counters/payload text, none for unannounced or superseded ids, end-of-query marker last, new id after a window change gets exactly the new window, union of search pages = matching stream positions without duplicates, lookups answered ok: return the first stream position not before the request.".into(),
             assumptions: vec!["server level uses one generated 6-message log (two ECUs, one lifecycle each)".into(), "message-arrival batching is modelled by explicit ticks of the driver (receive budget)".into()],
-            budget_s: (50, 1500),
+            budget_s: (150, 1500),
             workers: 1,
             required_landmarks: vec!["chunk_limit_active", "query_more_matches_than_window", "window_extended", "server_scenario", "server_window_change", "server_search", "server_lookup"],
         }
